@@ -383,6 +383,9 @@ class PrimalDualHybridGradient(Alg):
 
     def _update(self):
         # Update dual.
+        with self.u_device:
+            u_old = self.u.copy()
+
         util.axpy(self.u, self.sigma, self.A(self.x_ext))
         backend.copyto(self.u, self.proxfc(self.sigma, self.u))
 
@@ -418,8 +421,26 @@ class PrimalDualHybridGradient(Alg):
         with self.x_device:
             xp = self.x_device.xp
             x_diff = self.x - x_old
-            self.resid = xp.linalg.norm(x_diff / self.tau**0.5).item()
-            backend.copyto(self.x_ext, self.x + theta * x_diff)
+            x_ext_new = self.x + theta * x_diff
+            # The next update reads x_ext and u, so the iteration is at a
+            # fixed point only if the primal variable, the extrapolated
+            # point and the dual variable all stopped moving.
+            resid_primal = (
+                xp.linalg.norm(x_diff / self.tau**0.5).item() ** 2
+                + xp.linalg.norm(
+                    (x_ext_new - self.x_ext) / self.tau**0.5
+                ).item()
+                ** 2
+            )
+            backend.copyto(self.x_ext, x_ext_new)
+
+        with self.u_device:
+            xp = self.u_device.xp
+            resid_dual = (
+                xp.linalg.norm((self.u - u_old) / self.sigma**0.5).item() ** 2
+            )
+
+        self.resid = (resid_primal + resid_dual) ** 0.5
 
     def _done(self):
         return (self.iter >= self.max_iter) or (self.resid <= self.tol)
